@@ -30,7 +30,7 @@ from hypothesis import strategies as st
 from vlib import gen, walk
 
 ID = "C18"
-LEVEL = "exploration"
+LEVEL = "fault_enumeration"
 RULE = ("Hypothesis-generated recipes (0-3 top-level sections, nesting <= 3, 0-4 properties each of value "
         "type int/float/str/bool incl. empty value lists, non-ASCII strings, int64 bounds, units, "
         "definitions; 0-2 blocks with 1-D arrays described by a self-referencing range descriptor and "
